@@ -712,7 +712,7 @@ pub fn batch_run<C: Cv>(job: &Value, record: bool) -> (Vec<Value>, Value) {
     let alphas: Vec<Fr<C>> = (0..ms.len()).map(|_| Fr::<C>::rand(&mut replay)).collect();
     if record {
         events.push(json!({"ev":"batch","role":"","alphas":alphas.iter().map(enc_s::<C>).collect::<Vec<_>>(),"res":bres,"n":ms.len(),
-                           "rng_bytes": rng.taken, "rng_bytes_expected": replay.taken, "cap": cap}));
+                           "rng_bytes": rng.taken, "rng_bytes_expected": replay.taken, "cap": cap, "job": job["id"]}));
     }
     let all_ok = individual.iter().all(|r| r == "ok");
     if bres.starts_with("panic") {
